@@ -1,4 +1,4 @@
-import CoapVerif.Lemmas.EditTrace
+import CoapVerif.Lemmas.EditWf
 /-
 C04 — in-place message edits change only what they name.
 
@@ -280,6 +280,37 @@ theorem edits_then_roundtrip (ms : Nat) (a : Msg) (es : List Spec.Edit) (hs : Sh
   exact ⟨Spec.encode p a', serialise_conc p ms a' hty hcode hmid ht hlen,
          Coap.decode_encode p a' ⟨hty, hcode, hmid, ht, by assumption, by assumption, hlen⟩⟩
 
+/-- edits of RECEIVED messages start from a representing PDU too: what `coap_pdu_parse` leaves behind for an accepted
+message (`M.ofParsed`: the received bytes behind the fixed header, `max_opt` = last option number, `data` = offset
+behind the marker) is `conc ms m` for the decoded `m`, on every framing, and `m` satisfies `Shape` -/
+theorem parsed_start_is_refined (ms : Nat) (p : Proto) (wire : Bytes) (m : Msg) (h : Spec.decode p wire = some m) :
+    ofParsed ms m (wire.drop (headerSize p (wire.headD 0).toNat)) = conc ms m ∧ Shape m :=
+  parsed_start ms p wire m h
+
+/-- well-formedness is kept: if the message was well-formed and every inserted / updated value respects the RFC length
+limit of its option (`editLenOk`), the edited abstract message is well-formed again (on tcp: as long as it still fits
+the 32-bit extended length) — including D13's implicit Hop-Limit and the open finding's leftover one -/
+theorem edits_keep_wellformed (p : Proto) (a a' : Msg) (es : List Spec.Edit) (rcs : List Nat) (h : EditTrace a es rcs a')
+    (hs : Shape a') (hwf : Spec.WF p a) (hc : a.code ≠ 0) (he : ∀ e ∈ es, editLenOk a.code e)
+    (htcp : p = .tcp → (Spec.encRest a').length < 65805 + 4294967296) : Spec.WF p a' :=
+  editTrace_wf p h hs hwf hc he htcp
+
+/-- **C04 end to end** (hypotheses on the inputs only): a well-formed non-Empty message, any sequence of edits whose
+values respect the RFC length limits, any capacity ⇒ M ends on the PDU representing the same edits applied to the
+abstract model, and its serialisation decodes to exactly that model -/
+theorem edits_then_roundtrip_wf (p : Proto) (ms : Nat) (a : Msg) (es : List Spec.Edit) (hwf : Spec.WF p a) (hc : a.code ≠ 0)
+    (hn : ∀ e ∈ es, editNumOk e) (he : ∀ e ∈ es, editLenOk a.code e) :
+    ∃ rcs a', run (conc ms a) (es.map callOf) = R.ok (rcs, conc ms a') ∧ EditTrace a es rcs a' ∧
+      ((p = .tcp → (Spec.encRest a').length < 65805 + 4294967296) →
+        Spec.WF p a' ∧
+        ∃ bytes, serialise p (conc ms a') = some bytes ∧ Spec.decode p bytes = some (Spec.onWire p a')) := by
+  have hs : Shape a := Shape_of_optsOk a hwf.2.2.2.1 hwf.2.2.2.2.1
+  obtain ⟨rcs, a', h1, h2, h3, h4⟩ := edits_then_roundtrip ms a es hs hn
+  refine ⟨rcs, a', h1, h2, ?_⟩
+  intro htcp
+  have hwf' := edits_keep_wellformed p a a' es rcs h2 h3 hwf hc he htcp
+  exact ⟨hwf', h4 p hwf'⟩
+
 /-! ### non-vacuity of the M-side theorems: concrete instances (by evaluation of M) -/
 
 /-- the message used below: 9 bytes behind the header; option 300 is encoded with a two-byte delta extension (297) -/
@@ -331,6 +362,16 @@ example : EditTrace ⟨0, 1, 7, [1], [(3, [0x68]), (300, [1])], [9]⟩
     ⟨0, 1, 7, [1], [(3, [0x68]), (35, [0x78]), (290, [0x62])], [9]⟩ :=
   EditTrace.accepted false (by decide) (by decide) (EditTrace.accepted false (by decide) (by decide)
     (EditTrace.accepted false (by decide) (by decide) (EditTrace.nil _)))
+/-- a received datagram (GET, token 01, Uri-Path "a", option 300, payload 09) and the PDU the parser leaves behind -/
+example : Spec.decode .udp [0x41, 0x01, 0x00, 0x07, 1, 0xb1, 0x61, 0xe1, 0x00, 0x14, 1, 0xff, 9] =
+    some ⟨0, 1, 7, [1], [(11, [0x61]), (300, [1])], [9]⟩ := by decide
+example : ofParsed 0 ⟨0, 1, 7, [1], [(11, [0x61]), (300, [1])], [9]⟩ [1, 0xb1, 0x61, 0xe1, 0x00, 0x14, 1, 0xff, 9] =
+    conc 0 ⟨0, 1, 7, [1], [(11, [0x61]), (300, [1])], [9]⟩ := by decide
+/-- hypotheses of `edits_then_roundtrip_wf` on a concrete instance -/
+example : Spec.WF .tcp ⟨0, 1, 7, [1], [(11, [0x61]), (300, [1])], [9]⟩ ∧
+    (∀ e ∈ [Spec.Edit.insert 290 [0x62], .update 11 [0x69], .remove 300, .setToken [5, 6]], editNumOk e) ∧
+    (∀ e ∈ [Spec.Edit.insert 290 [0x62], .update 11 [0x69], .remove 300, .setToken [5, 6]], editLenOk 1 e) := by
+  refine ⟨by decide, ?_, ?_⟩ <;> (intro e he; simp at he; rcases he with rfl | rfl | rfl | rfl <;> simp [editNumOk, editLenOk] <;> decide)
 /-- the open finding inside an edit sequence: the refused Proxy-Uri (capacity 12) leaves Hop-Limit = 16 behind -/
 example : run (conc 12 ⟨0, 1, 1, [], [], []⟩) ([.insert 35 (List.replicate 20 0x61)].map callOf) =
     R.ok ([0], conc 12 ⟨0, 1, 1, [], [(16, [16])], []⟩) := by decide
